@@ -129,6 +129,29 @@ CxxTok(D, named) ==
   \o (IF D.fc THEN <<"const">> ELSE <<>>)
   \o DimsTok(D.dims)
 
+\* C (docs/cwrapper: the C counterpart of a declaration over native types): the same declaration with every
+\* reference written as a pointer; cv-qualifiers stay where they are, at every level
+NativeBases == {"int", "long", "uint", "ulong", "llong", "longint", "unsigned", "double", "float", "char", "bool",
+                "void", "size_t"}
+RECURSIVE AllNative(_)
+AllNative(D) == D.base \in NativeBases /\ \A i \in 1..Len(D.ps) : AllNative(D.ps[i])
+CLevelTok(l) == <<"*">> \o CvTok(l.c, l.v)
+RECURSIVE CLevelsTok(_)
+CLevelsTok(ls) == IF ls = <<>> THEN <<>> ELSE CLevelTok(Head(ls)) \o CLevelsTok(Tail(ls))
+RECURSIVE CTok(_, _), CParams(_)
+CParams(ps) == IF ps = <<>> THEN <<>>
+               ELSE CTok(Head(ps), TRUE) \o (IF Len(ps) > 1 THEN <<",">> ELSE <<>>) \o CParams(Tail(ps))
+CTok(D, named) ==
+  CvTok(D.cq.c, D.cq.v) \o BaseCxx(D.base)
+  \o CLevelsTok(D.lv)
+  \o (CASE D.kind = "fptr" -> <<"(", "*", D.nm, ")">>
+        [] D.kind \in {"var", "func"} /\ named -> <<D.nm>>
+        [] OTHER -> <<>>)
+  \o (IF HasParams(D) THEN <<"(">> \o (IF D.ps = <<>> \/ IsVoidOnly(D.ps) THEN <<"void">> ELSE CParams(D.ps)) \o <<")">>
+      ELSE <<>>)
+  \o (IF D.fc THEN <<"const">> ELSE <<>>)
+  \o DimsTok(D.dims)
+
 -----------------------------------------------------------------------------
 (* phase machine: the sentence is emitted production by production *)
 VARIABLES D, phase, toks, depth
